@@ -64,7 +64,7 @@ class Canon:
                 t = t[1]
             elif t[0] == "drv":
                 if key is None:
-                    key = ("clo", t[2])
+                    key = ("drv", t[2])
                 t = t[1]
             else:
                 alts = [a for a in t[1] if a[0] != "loopback" and base_iter(a)[0] != "loopback"]
@@ -219,6 +219,8 @@ class Canon:
                 for f in F.adts[sa]["variants"][0]["fields"]:
                     if f["name"] == c[2]:
                         ty = f["ty"]
+        if c[0] == "col" or (c[0] == "call" and len(c) == 5 and "nalgebra" in c[1] and last(c[1]) in ("diagonal", "column", "column_mean", "column_sum")):
+            return True
         dims = alloc_dims(c)
         if dims is not None:
             cc = dims[1]
@@ -517,36 +519,8 @@ def tab_of(cn, effs, T):
         return None, "element index `%s` is not a tuple of distinct loop indices" % ", ".join(short(i)[:40] for i in w.idx)
     complete = executes_every_iteration(w.eff) and len(w.idx) == len(dims)
     if complete:
-        rels = None
-
-        def facts():
-            g = Guards(cn.ev, w.eff.body, w.eff.env)
-            return [(r[0], cn.norm_extent(cn.canon(r[1])), cn.norm_extent(cn.canon(r[2]))) for r in g.relations_at(w.eff.block)[0] if r[0] in ("Le", "Lt", "Eq")]
-
-        def same(x, y):
-            nonlocal rels
-            if x == y or ilin_eq(x, y):
-                return True
-            if rels is None:
-                rels = facts()
-            return provably_eq(x, y, rels)
         for i, d in zip(w.idx, dims):
-            e = cn.extent.get(i[1])
-            if e is None:
-                complete = False
-            elif e[0] != "min" and same(e, d):
-                continue
-            elif e[0] == "min" and any(same(x, d) for x in e[1]):
-                # lock-step iteration: the other iterators must be at least as long — from guards (asserts) that
-                # dominate the store
-                if rels is None:
-                    rels = facts()
-                for x in e[1]:
-                    if same(x, d):
-                        continue
-                    if not provably_le(d, x, rels):
-                        complete = False
-            else:
+            if not extent_covers(cn, w, i, d):
                 complete = False
     return {"dims": dims, "val": w.val, "ivs": tuple(w.idx), "complete": complete, "how": "stores", "write": w}, ""
 
@@ -601,3 +575,125 @@ def provably_eq(a, b, rels):
         if f is not None and (f == d or f == neg):
             return True
     return False
+
+
+# ----------------------------------------------------------------------------------------------
+# "written in every iteration": must-pass along the inlining chain of a write effect
+# ----------------------------------------------------------------------------------------------
+def success_returns(body):
+    """blocks that assign a success value (Ok/Some) to the return place; all exits if the function
+    does not return a Result/Option built in place"""
+    oks = [bi for bi, si, s in body.stmts() if s["k"] == "assign" and s["place"]["l"] == 0 and not s["place"]["proj"]
+           and s["rv"]["k"] == "agg" and s["rv"].get("variant") in ("Ok", "Some", "Continue")]
+    return oks or body.exits()
+
+
+def chain_of(e, F):
+    """[(body, block)] from the analysed root down to the effect: at every level the (possibly specialised)
+    body in which the next call / the effect itself sits"""
+    envs = []
+    x = e.env
+    while x is not None:
+        envs.append(x)
+        x = getattr(x, "parent", None)
+    envs.reverse()
+    if len(envs) != len(e.env.path) + 1:
+        # not produced by iteration_effects: fall back to the unspecialised bodies
+        out = []
+        for k, blk in e.env.path:
+            b = F.bodies.get(k)
+            if b is None:
+                return None
+            out.append((b, blk))
+        out.append((e.body, e.block))
+        return out
+    out = []
+    for i, env in enumerate(envs[:-1]):
+        out.append((env.body, e.env.path[i][1]))
+    out.append((e.body, e.block))
+    return out
+
+
+def written_each_iteration(cn, w, iv):
+    """(ok, reason): the write `w` is executed in every iteration of the loop / driven closure that `iv`
+    counts, on every path of that iteration that does not leave with a failure — also when the write
+    sits in helpers called from the iteration body (each helper must write on all its success paths)"""
+    F = cn.ev.facts
+    e = w.eff
+    chain = chain_of(e, F)
+    if chain is None or iv[0] != "iv":
+        return False, "write site not resolved"
+    key = None
+    for k, n in cn.keys.items():
+        if n == iv[1]:
+            key = k
+    if key is None or key[0] != "drv":
+        return False, "the index is not the counter of a loop or of a driven closure"
+    m = key[1]
+    if m and m[0] == "next":
+        # a loop: ("next", body key, block of the next() call, call path)
+        _, bkey, nblk, path = m
+        level = len(path)
+        if level >= len(chain) or chain[level][0].key != bkey:
+            return False, "the write is not inside the loop that the index counts"
+        body, blk = chain[level]
+        loops = [(h, blks) for h, blks in body.natural_loops().items() if nblk in blks]
+        if not loops:
+            return False, "loop not found"
+        h, blks = min(loops, key=lambda x: len(x[1]))
+        if blk not in blks:
+            return False, "the write lies outside the loop"
+        entry = None
+        nt = body.blocks[nblk]["term"]
+        for (sb, si, pk, variants) in body.discr_switches():
+            if sb in blks and pk[0] == nt["dest"]["l"] and not pk[1]:
+                yes, no = variant_edge(body, sb, "Some")
+                if yes:
+                    entry = yes[0][1]
+        if entry is None:
+            return False, "loop test not found"
+        if h in body.reachable(entry, avoid={blk}):
+            return False, "a path through the loop body returns to the loop header without performing the write"
+    else:
+        # a closure driven by an iterator adapter: (closure key, caller key, block, call path)
+        clo_key, bkey, bi, path = m
+        level = len(path) + 1
+        if level >= len(chain) or chain[level][0].key != clo_key:
+            return False, "the write is not inside the closure driven by the iteration"
+        body, blk = chain[level]
+        if not body.must_pass(0, success_returns(body), {blk}):
+            return False, "a path through the per-element closure reports success without performing the write"
+    # deeper levels: helpers must write on all their success paths
+    for body, blk in chain[level + 1:]:
+        if not body.must_pass(0, success_returns(body), {blk}):
+            return False, "helper `%s` can return successfully without performing the write" % body.key[-60:]
+    return True, ""
+
+
+def extent_covers(cn, w, iv, d):
+    """the iteration counted by `iv` visits every index below `d`: its extent equals d, or is a minimum
+    (lock-step iteration) of d and quantities that guards dominating the write show to be >= d"""
+    e = cn.extent.get(iv[1]) if iv[0] == "iv" else None
+    if e is None:
+        return False
+    d = cn.norm_extent(cn.canon(d))
+    rels = []
+    have = [False]
+
+    def facts():
+        if not have[0]:
+            have[0] = True
+            chain = chain_of(w.eff, cn.ev.facts) or []
+            g = Guards(cn.ev, w.eff.body, w.eff.env)
+            for r in g.relations_at(w.eff.block)[0]:
+                if r[0] in ("Le", "Lt", "Eq"):
+                    rels.append((r[0], cn.norm_extent(cn.canon(r[1])), cn.norm_extent(cn.canon(r[2]))))
+        return rels
+
+    def same(x, y):
+        return x == y or ilin_eq(x, y) or provably_eq(x, y, facts())
+    if e[0] != "min":
+        return same(e, d)
+    if not any(same(x, d) for x in e[1]):
+        return False
+    return all(same(x, d) or provably_le(d, x, facts()) for x in e[1])
